@@ -226,7 +226,7 @@ package jet
 //@ func isUint
 //@   props C10 C07 C12
 //@   nopanic
-//@   ensures [kind-class] result == KUint(kind)
+//@   ensures [kind-class] result == (7 <= kind && kind <= 11)
 //@ func isInt
 //@   props C10 C07 C12
 //@   nopanic
